@@ -479,6 +479,17 @@ func (x *Exec) run() {
 	x.usedPoints = map[int]bool{}
 	fl := x.execBlock(fi.Body.List, st, env)
 	if x.con != nil && !x.inlineMode {
+		for ord := range x.con.Loops {
+			found := false
+			for _, o := range x.loopOrd {
+				if o == ord {
+					found = true
+				}
+			}
+			if !found {
+				panic(unsupported(fmt.Sprintf("contract refers to loop %d which does not exist in %s", ord, fi.Key)))
+			}
+		}
 		for i, p := range x.con.Points {
 			if !x.usedPoints[i] {
 				panic(unsupported("contract refers to program point " + p.When + " " + p.Anchor + " which does not exist (or is unreachable) in " + fi.Key))
@@ -557,6 +568,20 @@ func (x *Exec) initHandle(st *State, v Val, name string) {
 		n := c.freshConst("recv_"+name+".n", "Int")
 		c.assume("true", app(">=", n, "0"))
 		st.gh["recv:"+v.T] = Val{Seq: &SeqVal{Arr: arr, N: n, Elem: u.Elem(), ESort: es}}
+		// everything reachable from a value that will be received already exists when the function starts: slices inside
+		// received structs are well-formed and point to arrays allocated before this call
+		if su, ok := u.Elem().Underlying().(*types.Struct); ok {
+			ssort := c.sortOf(u.Elem())
+			for i := 0; i < su.NumFields(); i++ {
+				if _, isSl := su.Field(i).Type().Underlying().(*types.Slice); isSl {
+					f := "(" + c.fieldAcc(ssort, su.Field(i).Name()) + " (select " + arr + " j))"
+					c.assumes = append(c.assumes, fmt.Sprintf("(forall ((j Int)) (! (and (<= 0 (s.ref %s)) (< (s.ref %s) %s) (<= 0 (s.off %s)) (<= 0 (s.len %s)) (<= (s.len %s) (s.cap %s))) :pattern ((select %s j))))", f, f, x.alloc0, f, f, f, f, arr))
+				}
+			}
+		} else if _, isSl := u.Elem().Underlying().(*types.Slice); isSl {
+			f := "(select " + arr + " j)"
+			c.assumes = append(c.assumes, fmt.Sprintf("(forall ((j Int)) (! (and (<= 0 (s.ref %s)) (< (s.ref %s) %s) (<= 0 (s.off %s)) (<= 0 (s.len %s)) (<= (s.len %s) (s.cap %s))) :pattern ((select %s j))))", f, f, x.alloc0, f, f, f, f, arr))
+		}
 		st.gh["recvpos:"+v.T] = Val{T: "0", Ty: tInt}
 		sarr := c.freshConst("sent_"+name, "(Array Int "+es+")")
 		st.gh["sent:"+v.T] = Val{Seq: &SeqVal{Arr: sarr, N: "0", Elem: u.Elem(), ESort: es}}
